@@ -1,9 +1,9 @@
 #!/usr/bin/env python3
 """usage: c13_decode.py cases impl model [line] — show, per stimulus, the implementation's and the model's step of the first (or given) differing case"""
 import sys
-W={0:8,1:2,2:4,3:2,4:2,5:4,6:3,7:2,8:2,9:4,10:2,11:2,12:2,13:4,14:4,15:5,16:2,17:2,18:6,19:6,20:6,21:4,22:1}
-NAME={0:'Send p dial len tag fbname fblen fbtag',1:'Cancel rid',2:'Established p broken cap',3:'Closed p',4:'DialFail p',5:'Opened k gate neg',6:'OpenFail k unsup',7:'Unblock k',8:'BreakW k',9:'Respond k len tag',10:'Eof k',11:'Err k',12:'Advance dt',13:'InOpen p gate neg',14:'InReq k len tag',15:'URespond k len tag fb',16:'UReject k',17:'BreakConn p',18:'Burst p dial n len tag',19:'RaceRespAdv k len tag dt first',20:'RaceRespCancel k len tag rid first',21:'RaceCancelAdv rid dt first',22:'DropManager'}
-EW={1:2,2:4,3:3,4:5,5:4,7:3,8:3,9:3,10:3,99:2}
+W={0:8,1:2,2:4,3:2,4:2,5:4,6:3,7:2,8:2,9:4,10:2,11:2,12:2,13:4,14:4,15:5,16:2,17:2,18:6,19:6,20:6,21:4,22:1,23:8,24:7,25:5,26:2,27:2,28:3,29:2,30:1,31:1}
+NAME={0:'Send p dial len tag fbname fblen fbtag',1:'Cancel rid',2:'Established p broken cap',3:'Closed p',4:'DialFail p',5:'Opened k gate neg',6:'OpenFail k unsup',7:'Unblock k',8:'BreakW k',9:'Respond k len tag',10:'Eof k',11:'Err k',12:'Advance dt',13:'InOpen p gate neg',14:'InReq k len tag',15:'URespond k len tag fb',16:'UReject k',17:'BreakConn p',18:'Burst p dial n len tag',19:'RaceRespAdv k len tag dt first',20:'RaceRespCancel k len tag rid first',21:'RaceCancelAdv rid dt first',22:'DropManager',23:'SendAsync p dial len tag fbname fblen fbtag',24:'BurstAsync p dial n len tag drop',25:'RespRaw irid len tag fb',26:'RejRaw irid',27:'Exit kind',28:'MgrPeer p view',29:'Clog b',30:'Flush',31:'FlushSoft'}
+EW={1:2,2:4,3:3,4:5,5:4,7:3,8:3,9:3,10:3,11:3,12:2,13:2,99:2}
 def ops(c):
     i=6; out=[]
     for _ in range(c[5]):
